@@ -174,6 +174,7 @@ def units(tier, seed):
         out.append(("is_prime-range", {"lo": -5 + i * (top + 5) // ns, "hi": -5 + (i + 1) * (top + 5) // ns}))
     out.append(("is_prime-adversarial", {}))
     out.append(("interleaved", {"stride": 1, "max": 4000 if q else 40000}))
+    out.append(("history", {}))
     out.append(("is_prime-random", {"examples": 3000 if q else 100000}))
     npt = 2 ** 13 if q else 2 ** 16
     for i in range(2):
@@ -189,14 +190,41 @@ def units(tier, seed):
 
 def _interleaved_jobs():
     return {
-        "a": lambda: [NT.is_prime(1000003), NT.is_prime(3215031751), NT.next_prime(1300), NT.factorization(2 * 3 * 1237 * 1237),
-                      NT.gcd(12, 18, 30), NT.lcm([4, 6, 10])],
-        "b": lambda: [NT.is_prime(1000001), NT.is_prime(2147483647), NT.next_prime(7919), NT.factorization(1231 * 1249 * 7),
-                      NT.gcd([35, 49]), NT.lcm(3, 5, 7)],
+        # a starts with composites that only the Miller-Rabin rounds reject; b ends with a full-length primality proof
+        "a": lambda: [NT.is_prime(1231 * 1237), NT.is_prime(3215031751), NT.is_prime(1000003), NT.next_prime(1300),
+                      NT.factorization(2 * 3 * 1237 * 1237), NT.gcd(12, 18, 30), NT.lcm([4, 6, 10])],
+        "b": lambda: [NT.gcd([35, 49]), NT.lcm(3, 5, 7), NT.factorization(1231 * 1249 * 7), NT.next_prime(7919),
+                      NT.is_prime(1000001), NT.is_prime(1000003), NT.is_prime(2147483647)],
     }
 
 
+def history(ctx):
+    """results are functions of the argument alone: numbers that share large prime factors (or are related
+    in other ways) asked one after the other, in several orders, each compared with the reference"""
+    big = [1000003, 1299709, 15485863]
+    mid = [1231, 1249, 1277, 1279]
+    seqs = []
+    for P in big:
+        for q in mid:
+            seqs.append([2 * P, q * P, q, P, q * q * P, 3 * q, P * P, q * P])
+            seqs.append([q * P, 2 * P, 7 * q * P, P])
+    seqs.append([1231 * 1237, 1231, 1237, 1231 * 1237 * 1249, 1249 * 1231])
+    seqs.append([big[0] * big[1], big[1] * big[2], big[0] * big[2], big[2]])
+    for seq in seqs:
+        for n in seq + seq[::-1]:
+            check_factorization(ctx, n, RN.factor(n))
+            check_is_prime(ctx, n, RN.is_prime(n), why="history")
+            w = n + 1
+            while not RN.is_prime(w):
+                w += 1
+            check_next_prime(ctx, n, w)
+    ctx.sample({"fn": "history", "note": "numbers sharing prime factors above the small-prime table, asked in several orders"})
+
+
 def run_unit(ctx, name, **kw):
+    if name == "history":
+        history(ctx)
+        return
     if name == "interleaved":
         from .purity import interleaved_pure
         interleaved_pure(ctx, "numbertheory", [NT], _interleaved_jobs(), kw["stride"], max_schedules=kw["max"])
@@ -345,6 +373,9 @@ def run_unit(ctx, name, **kw):
 
 
 def replay(ctx, case):
+    if case.get("fn") == "history" or case.get("why") == "history":
+        history(ctx)
+        return
     if case.get("kind") == "interleaved":
         from .purity import interleaved_pure
         interleaved_pure(ctx, "numbertheory", [NT], _interleaved_jobs(), 1, max_schedules=4000)
